@@ -161,6 +161,51 @@ def check_handler(run, S, mod, f, shape, vpos, n, lo, want_status, fld):
             base, off = sym.split_base(a)
             if base == arr:
                 stores.setdefault(off, []).append(S.value(f, i.ops[0]))
+    # ids collected through the helper `collect_tip<Policy, ArgType>(iter, arg)` (one call per parameter, in order): the helper of a
+    # virtual ArgType stores ONE value through the cursor and advances it, the helper of a non-virtual one does nothing. Its stored
+    # value is summarised in terms of its own argument and substituted with the handler's actual argument.
+    helper_args = set()          # (call inst id, operand index) of arguments handed to a do-nothing helper: not a use
+    from .. import vptr as _vp
+    j = 0
+    for i in f.all_insts():
+        if i.op in ("call", "invoke") and i.callee and "::collect_tip<" in i.callee:
+            g = mod.funcs.get(i.callee_name) if hasattr(i, "callee_name") else None
+            if g is None:
+                g = next((x for x in mod.funcs.values() if x.body and x.dname == i.callee), None)
+            if g is None:
+                run.broken.append("%s: body of %s not in the unit" % (f.dname[:80], i.callee[:80]))
+                continue
+            Sg = sym.Sym(mod, opaque=r"::dynamic_type<")
+            gst = [x for x in g.all_insts() if x.op == "store"]
+            # stores through the cursor: value operands that are not the cursor's own advance (a pointer stored back into arg0)
+            vals = []
+            for x in gst:
+                tgt = Sg.value(g, x.ops[1])
+                val = Sg.value(g, x.ops[0])
+                if tgt == ("arg", 0):
+                    continue                 # the cursor itself being advanced
+                vals.append(val)
+            if not gst:
+                helper_args.add(i.id)
+                continue
+            if len(vals) != 1:
+                run.broken.append("%s: the helper %s stores %d values" % (f.dname[:80], i.callee[:60], len(vals)))
+                continue
+            actual = S.value(f, i.ops[1])
+            v0 = vals[0]
+            if v0[0] == "call" and v0[2]:
+                # the object the id is taken from, in the helper's own terms: does it denote the helper's argument? (temporaries the
+                # helper makes on the way - a copy of the smart pointer - are resolved in the helper's context)
+                gsrc = walk.source_groups(g, has_this=False)
+                pc = walk.param_of(g, v0[2][-1], gsrc, Sg)
+                if pc is not None and 1 in gsrc[pc][1]:
+                    v0 = (v0[0], v0[1], tuple(v0[2][:-1]) + (actual,))
+                else:
+                    v0 = _vp.subst_arg(v0, 1, actual)
+            else:
+                v0 = _vp.subst_arg(v0, 1, actual)
+            stores.setdefault(8 * j, []).append(v0)
+            j += 1
     offs = sorted(stores)
     if offs != [8 * j for j in range(n)] or any(len(v) != 1 for v in stores.values()):
         problems.append(("count", "ids are stored at array offsets %s, expected one per virtual parameter %s" % (offs, [8 * j for j in range(n)])))
@@ -184,7 +229,14 @@ def check_handler(run, S, mod, f, shape, vpos, n, lo, want_status, fld):
     for pi, (stem, idxs) in enumerate(src):
         if pi not in vpos:
             for k in idxs:
-                if uses.get(("a", k)):
+                def only_spill(x):
+                    """the argument is spilled to a stack slot whose address only goes to do-nothing helpers"""
+                    if x.op != "store" or not x.ops or x.ops[0] != ["a", k] or len(x.ops) < 2 or x.ops[1][0] != "i":
+                        return False
+                    slot = ("i", x.ops[1][1])
+                    return all(y is x or (y.op in ("call", "invoke") and y.id in helper_args) for y in uses.get(slot, []))
+                real = [x for x in uses.get(("a", k), []) if x.id not in helper_args and not only_spill(x)]
+                if real:
                     problems.append(("nonvirtual-used", "non-virtual parameter #%d is used by the handler" % pi))
                     break
     return problems
